@@ -478,6 +478,144 @@ def leg(ck, drv, n):
     ck.cover(evaluations=len(blocks), distinct=(r for r in reqs), samples=[{"request": reqs[0], "real": real[0]}], dist=st)
 
 
+
+# ------------------------------------------------------------------------------------------ blocks of the real pipeline
+GBIN = {"/": "/", "%": "%", "+": "+", "-": "-", "*": "*", "&": "&", "|": "|", "^": "^"}
+
+
+def _g_un(ir, e):
+    return "i2c" if isinstance(e, ir.CastExpression) else {"-": "neg", "~": "not"}.get(e.op, "neg")
+
+
+def g_show_expr(ir, e) -> str:
+    """canonical text with the operators mapped to the ones of the model (the passes do not look at the operator
+    beyond cast / division): any cast is i2c, any binary operator but / and % that the model has not is +"""
+    def key(k):
+        return str(k) if isinstance(k, int) else "_"
+    if isinstance(e, ir.Constant):
+        return "c%d" % e.cst2
+    if isinstance(e, ir.Variable):
+        return "v%d" % e.v
+    if isinstance(e, ir.BinaryExpression):
+        return "b(%s %s %s %s %s)" % (GBIN.get(e.op, "+"), key(e.arg1), g_show_expr(ir, e.var_map[e.arg1]), key(e.arg2),
+                                      g_show_expr(ir, e.var_map[e.arg2]))
+    if isinstance(e, ir.UnaryExpression):
+        return "u(%s %s %s)" % (_g_un(ir, e), key(e.arg), g_show_expr(ir, e.var_map[e.arg]))
+    raise TypeError(type(e).__name__)
+
+
+def g_show_ins(ir, s) -> str:
+    if isinstance(s, ir.ReturnInstruction):
+        return "return %s %s" % (s.arg if isinstance(s.arg, int) else "_", g_show_expr(ir, s.var_map[s.arg]))
+    if type(s) is ir.AssignExpression:
+        return "%s = %s" % ("_" if s.lhs is None else s.lhs, g_show_expr(ir, s.rhs))
+    raise TypeError(type(s).__name__)
+
+
+def g_wire(ir, params, inss):
+    """wire form of a block of the real pipeline whose operands are still registers and constants; TypeError outside"""
+    def atom(o):
+        if isinstance(o, ir.Constant) and isinstance(o.cst2, int):
+            return "_ c %d" % o.cst2
+        if isinstance(o, ir.Variable) and isinstance(o.v, int):
+            return "%d v %d" % (o.v, o.v)
+        raise TypeError(type(o).__name__)
+    ws = ["P", str(len(params))] + [str(p) for p in params] + ["S", str(len(inss))]
+    for s in inss:
+        if isinstance(s, ir.ReturnInstruction):
+            if s.arg is None:
+                raise TypeError("return-void")
+            a = s.var_map[s.arg]
+            if not (isinstance(a, ir.Variable) and isinstance(a.v, int)):
+                raise TypeError("return of " + type(a).__name__)
+            ws.append("r %d v %d" % (a.v, a.v))
+            continue
+        if type(s) is not ir.AssignExpression or s.lhs is None or not isinstance(s.lhs, int):
+            raise TypeError(type(s).__name__)
+        e = s.rhs
+        if isinstance(e, ir.Constant) and isinstance(e.cst2, int):
+            t = "c %d" % e.cst2
+        elif isinstance(e, ir.BinaryExpression):
+            t = "b %s %s %s" % (GBIN.get(e.op, "+"), atom(e.var_map[e.arg1]), atom(e.var_map[e.arg2]))
+        elif isinstance(e, ir.UnaryExpression):
+            t = "u %s %s" % (_g_un(ir, e), atom(e.var_map[e.arg]))
+        else:
+            raise TypeError(type(e).__name__)
+        ws.append("a %d %s" % (s.lhs, t))
+    return " ".join(ws)
+
+
+def leg_pipeline(ck, drv, n_methods):
+    """straight-line generated methods through the REAL pipeline (construct, build_def_use, split_variables); the block
+    it hands to dead_code_elimination is given to the model, the block register_propagation leaves is compared"""
+    from . import javagen, c21diff
+    ir, df, gr, bb = _mods()
+    DEX = importlib.import_module("androguard.core.dex").DEX
+    Analysis = importlib.import_module("androguard.core.analysis.analysis").Analysis
+    dec = importlib.import_module("androguard.decompiler.decompile")
+    rng = random.Random("C21-prop-pipeline/%d" % ck.seed)
+    snap = {}
+    real_dce, real_prop = dec.dead_code_elimination, dec.register_propagation
+
+    def prop_hook(graph, du, ud):
+        r = real_prop(graph, du, ud)
+        if snap.get("wire"):
+            try:
+                left = list(graph.rpo[0].get_loc_with_ins())
+                snap["after"] = " ; ".join("%d: %s" % (loc, g_show_ins(ir, i)) for loc, i in left)
+            except TypeError as e:
+                snap["skip"] = "after:" + str(e)
+        return r
+
+    reqs, real = [], []
+    skipped = {}
+    nm = 0
+    dec.register_propagation = prop_hook
+    try:
+        for start in range(0, n_methods, 50):
+            ms = [javagen.gen_method(rng, "m%d" % i, level=0) for i in range(min(50, n_methods - start))]
+            data, _codes = c21diff.build_dex(ms)
+            d = DEX(data)
+            dx = Analysis(d)
+            for m in (m for c in d.get_classes() for m in c.get_methods()):
+                try:
+                    dv = dec.DvMethod(dx.get_method(m))
+
+                    def dce_hook(graph, du, ud, _p=list(dv.lparams)):
+                        snap.clear()
+                        nodes = list(graph.rpo)
+                        if len(nodes) == 1:
+                            try:
+                                snap["wire"] = g_wire(ir, _p, [i for _, i in nodes[0].get_loc_with_ins()])
+                            except TypeError as e:
+                                snap["skip"] = str(e)
+                        else:
+                            snap["skip"] = "several nodes"
+                        return real_dce(graph, du, ud)
+                    dec.dead_code_elimination = dce_hook
+                    snap.clear()
+                    dv.process()
+                except Exception as ex:  # noqa
+                    skipped["decompiler:" + type(ex).__name__] = skipped.get("decompiler:" + type(ex).__name__, 0) + 1
+                    continue
+                nm += 1
+                if snap.get("wire") and snap.get("after") is not None:
+                    reqs.append("dceprop " + snap["wire"])
+                    real.append("ins=" + snap["after"])
+                else:
+                    k = snap.get("skip", "no snapshot")
+                    skipped[k] = skipped.get(k, 0) + 1
+    finally:
+        dec.dead_code_elimination, dec.register_propagation = real_dce, real_prop
+    replies = drv.ask(reqs) if reqs else []
+    ck.compare("dead_code_elimination + register_propagation on the blocks of decompiled straight-line methods", reqs, real,
+               [r.split(" | ")[0] for r in replies])
+    safe = sum(1 for r in replies if " | safe=true" in r)
+    ck.cover(evaluations=len(reqs), distinct=(r for r in reqs), samples=[{"request": reqs[0], "real": real[0]}] if reqs else [],
+             dist={"pipeline_blocks_methods": nm, "pipeline_blocks_in_model": len(reqs), "pipeline_blocks_all_changes_checked": safe,
+                   "pipeline_blocks_skipped": skipped})
+
+
 #: the functions Model/Propagate.lean transliterates (appended to the PINS of harness/props/c21.py)
 PINS = [
     ("androguard/decompiler/dataflow.py", "register_propagation"),
